@@ -2,6 +2,7 @@
 import random
 
 from ..harness import Scenario, gen_cfg, ref_alpha
+from ..probes import InjectedFault
 from ..explref import PfiRef, Mismatch, compare
 
 SHARDS = {"quick": 1, "thorough": 16}
@@ -19,8 +20,13 @@ def run_config(run, cfg, seed, tag):
     for t in range(cfg["steps"]):
         kw = sc.call_kwargs()
         replay = {"cfg": cfg, "seed": seed, "step": t, "kwargs": kw}
+        if seed % 6 == 0 and t >= 1 and sc.rnd.random() < 0.3:       # a callback fails somewhere in this call; the caller carries on
+            sc.clock.fail_at_next = sc.rnd.randrange(1, 3 + 2 * cfg["d"] * cfg["n_inner"])
         try:
             x, y, ret, log = sc.step(**kw)
+        except InjectedFault:
+            run.count("injected-faults-survived")       # a failed call changes nothing: the reference simply skips it
+            continue
         except Exception as ex:
             run.ok(kind="raised")
             run.violation("explain-raises", f"{tag} step {t}: explain_one raised {type(ex).__name__}: {ex} on a legal configuration", replay)
